@@ -43,10 +43,18 @@ CHECKS = {
                 text="Writer direction: every document rbx_xml emits is parsed by an independent XML parser (expat) into a token tree and TLC evaluates DocInvariants (all structural clauses of the property) and DocIssues = {} with XmlValue, the per-type value decoder transcribed from docs/xml.md. Reader direction: an independent generator written from docs/xml.md emits documents varying referent style, property order, indentation, Meta/External, forward references, ProtectedString, url/uri, wrapped base64, number spellings, Properties placement; each document is first held to XmlFormat.tla itself, then the forest rbx_xml read must be the forest it describes.",
                 note="Decimal text -> bit patterns is done by exact rational arithmetic in tools/xmltok.py (type-agnostic lexical views); which view a type uses is decided in TLA+. Two recorded findings (CR in strings, inf/NaN spelling inside CFrames).",
                 technique="independent XML parser + TLA+ value decoder from docs/xml.md (XmlFormat.tla) + independent document generator validated by the same spec"),
+    "C06": dict(level="model_checking", ref="§4 C06, §2.6",
+                text="For generated DOMs over database classes (and, descriptor by descriptor, every serializable non-migrating property in canonical and alias spelling) both encodings are written and read; TLC evaluates CrossIssues (CrossFormatTrace.tla): identical shape and, for every explicitly set property, the same canonical name (one Reflection.tla lookup for both codecs) with equal values (NaN as a class, the binary format's documented rotation snapping applied to the XML side). Conversion bin->xml and xml->bin must lose nothing the first read produced.",
+                note="Values sampled; Content object references excluded (recorded C02 finding).",
+                technique="TLA+ cross-format equivalence (CrossFormatTrace.tla over XmlFormat/BinaryFormat/Reflection) + trace validation"),
     "C08": dict(level="model_checking", ref="§4 C08, §2.5, App. B.3",
                 text="MCBinaryColumns.tla models collect_type_info and the per-instance value lookup with the real database as a constant; TLC checks AlwaysSucceeds / OwnValues / ColumnsExact / ExplicitWins for every subset assignment, sibling order, property-map and alias-set iteration order (and re-finds both repaired defects under the pre-fix rules). Every population (initial state) is built as a real DOM, written and read by rbx_binary, also instance by instance, and judged by BinaryFormat.tla (own values, defaults for lacking properties, success iff each instance succeeds alone).",
                 note="Exhaustive for the listed classes/spellings and 2-3 instances; other classes are reached by C01's random generators. The Font enum -> Font face table is uninterpreted.",
                 technique="TLA+ state machine of the writer's column logic (TLC) + exhaustive population replay + trace validation"),
+    "C15": dict(level="model_checking", ref="§4 C15, §2.5-2.6",
+                text="For every Migrate descriptor of the exported database, every legacy value (all Enum.Font items, all BrickColor numbers, both booleans, URIs) and {legacy only, legacy + explicit new}, the four paths (binary write, XML write, binary read, XML read; read paths in both chunk/element orders) are executed and TLC evaluates MigIssues: legacy name absent, new property present, value = the specified migration (colour table, inset enum, content URI; Font uninterpreted), explicit value wins, all paths agree. The writer's alias choice is also model-checked (MCBinaryColumns: ExplicitWins).",
+                note="Quick tier strides over the BrickColor numbers; thorough is exhaustive over the database's tables.",
+                technique="TLA+ MigIssues over the four logged paths (CrossFormatTrace.tla) + model-checked writer column logic"),
     "C16": dict(level="model_checking", ref="§4 C16, §2.2",
                 text="The whole bundled database (797 classes, 3242 descriptors, 7231 defaults, 458 enums) is exported from the working tree and each entry is one TLC state whose coherence predicate (Reflection.tla) is an invariant - exhaustive. Closure under the codec: every class populated with its default set and every serializable descriptor are written/read by rbx_binary and judged by BinaryFormat.tla.",
                 note="The export walks the public rbx_reflection API; a regenerated database is checked as it is. Quick tier samples the closure cases, thorough runs all.",
